@@ -196,8 +196,8 @@ PROPS["C11"] = dict(
         "is read as 'element decoders are entered through more than L container levels', the reading under which the crate's own documented test "
         "(4-level Vec<Vec<Vec<Vec<u8>>>> decodes with limit 3) satisfies it; the verdict uses only depth_lo <= threshold <= depth_hi",
         "stack safety is observed on a fixed 2 MiB stack in the optimised build; a stack overflow kills the child and is attributed to the last case"],
-    required=[("types_exercised", 200), ("limit_sweeps", 50000), ("limited_ok", 10000), ("limited_err", 5000), ("deep_cases", 40), ("deep_rejected", 30), ("deep_ok", 4)],
-    stages=lambda tier: [native(), native(runtime="release", name="release-deep", shards=6, args=["--mode", "deep"], mem_gb=4)],
+    required=[("types_exercised", 200), ("limit_sweeps", 50000), ("limited_ok", 10000), ("limited_err", 5000), ("deep_cases", 48), ("deep_rejected", 36), ("deep_ok", 5)],
+    stages=lambda tier: [native(), native(runtime="release", name="release-deep", shards=7, args=["--mode", "deep"], mem_gb=4)],
 )
 
 PROPS["C12"] = dict(
